@@ -366,6 +366,38 @@ pub fn free_port() -> u16 {
     l.local_addr().unwrap().port()
 }
 
+/// Starts routinator's real `http_listener` on a loopback port (own thread and runtime) serving
+/// the history of the returned `Served`. Three attempts with freshly probed ports.
+pub fn spawn_listener(ctx: &crate::core::Ctx) -> Option<(Served, SocketAddr)> {
+    for _ in 0..3 {
+        let dir = ctx.scratch();
+        let mut config = base_config(dir.path(), 2);
+        let addr: SocketAddr = format!("127.0.0.1:{}", free_port()).parse().unwrap();
+        config.http_listen = vec![addr];
+        let served = Served::with_config(dir, config, false);
+        let (history, rtrm, cfg) = (served.history.clone(), served.rtr_metrics.clone(), served.config.clone());
+        let (tx, rx) = std::sync::mpsc::channel();
+        std::thread::spawn(move || {
+            let rt = tokio::runtime::Builder::new_current_thread().enable_all().build().unwrap();
+            rt.block_on(async move {
+                match routinator::http::http_listener(history, rtrm, None, &cfg, NotifySender::new()) {
+                    Ok(fut) => {
+                        tx.send(true).ok();
+                        fut.await
+                    }
+                    Err(_) => {
+                        tx.send(false).ok();
+                    }
+                }
+            });
+        });
+        if rx.recv_timeout(Duration::from_secs(10)) == Ok(true) {
+            return Some((served, addr));
+        }
+    }
+    None
+}
+
 /// A minimal blocking HTTP/1.1 client for loopback use: one request, `Connection: close`.
 /// Returns (status, headers, body) with chunked transfer coding undone.
 pub fn http_request(addr: SocketAddr, method: &str, target: &str, headers: &[(&str, &str)], body: &[u8]) -> Result<(u16, Vec<(String, String)>, Vec<u8>), String> {
